@@ -876,7 +876,8 @@ func (c *Ctx) r105() {
 // R10.6: a linear pass inside a scan loop is capped.
 func (c *Ctx) r106() {
 	const rule = "R10.6"
-	c.R.Rule(rule, "library packages: a call of a helper that walks its whole argument (parse.ToLower, bytes.ToLower / ToUpper / TrimSpace …: cost linear in the slice) with a sub-slice S[lo:hi] of the slice S that the enclosing loop ranges over is a loop inside a loop; it keeps the total work linear only if the span is bounded: the call is dominated by a comparison of an expression over its bounds (hi - lo) with an integer constant. minify.Mediatype documents such a cap (`ToLower may otherwise slow down minification greatly`); without it W bytes of white space followed by Q quoted parameter values cost W×Q")
+	c.R.Rule(rule, "library packages: a call of a helper that walks its whole argument (parse.ToLower, bytes.ToLower / ToUpper / TrimSpace …: cost linear in the slice) with a sub-slice S[lo:hi] of the slice S that the enclosing loop ranges over is a loop inside a loop; it keeps the total work linear only if the span is bounded — the call is dominated by a comparison of an expression over its bounds (hi - lo) with an integer constant — or if the spans of successive passes are disjoint: the span is S[L:i] with i the loop index, and no feasible path (flag tests correlated, `x = !x` flips) leads from the call to another pass starting at L without an assignment that moves L to a value computed from i. A lower bound that lags behind (an index into the compacted output used on the input) makes W bytes of white space followed by Q quoted parameter values cost W×Q")
+	perFn := map[*ast.FuncDecl]int{}
 	linear := map[string]bool{load.ParseMod + ".ToLower": true, "bytes.ToLower": true, "bytes.ToUpper": true, "bytes.TrimSpace": true, "bytes.Title": true}
 	n := 0
 	for _, rel := range libPkgs {
@@ -922,6 +923,7 @@ func (c *Ctx) r106() {
 					continue
 				}
 				n++
+				perFn[fd]++
 				lo, hi := nospace(str(sl.Low)), nospace(str(sl.High))
 				capped := false
 				for _, f := range g.DomFacts(y) {
@@ -941,7 +943,59 @@ func (c *Ctx) r106() {
 						}
 					}
 				}
-				c.R.Check(capped, rule, fmt.Sprintf("%s.%s/%s inside the loop over %s", pk.Name, load.FuncName(fd), str(call.Fun), str(sl.X)), c.pos(call), "span compared with a constant", "a linear pass over "+str(call.Args[0])+" runs once per iteration of the loop over "+str(sl.X)+" with no cap on the span: quadratic time on crafted input")
+				how := "span compared with a constant"
+				lagPath := ""
+				if !capped {
+					// consumed spans: S[L:i] with L advanced past i before the next pass that starts at L
+					if lid, ok := ast.Unparen(sl.Low).(*ast.Ident); ok {
+						if kid, ok := loop.Key.(*ast.Ident); ok && nospace(str(sl.High)) == kid.Name {
+							lobj := info.Uses[lid]
+							advances := func(q *flow.Node) bool {
+								as, ok := q.Stmt.(*ast.AssignStmt)
+								if !ok || q.Kind != flow.KStmt {
+									return false
+								}
+								for k, l := range as.Lhs {
+									if id, ok := l.(*ast.Ident); ok && info.Uses[id] == lobj && k < len(as.Rhs) {
+										hit := false
+										ast.Inspect(as.Rhs[k], func(z ast.Node) bool {
+											if zi, ok := z.(*ast.Ident); ok && info.Uses[zi] == info.Defs[kid] {
+												hit = true
+											}
+											return true
+										})
+										return hit
+									}
+								}
+								return false
+							}
+							again := func(q *flow.Node) bool {
+								qa := q.Ast()
+								if qa == nil || q.Kind != flow.KStmt {
+									return false
+								}
+								hit := false
+								flowInspectCalls(qa, func(cl *ast.CallExpr) {
+									if linear[calleeName(info, cl)] && len(cl.Args) >= 1 {
+										if s2, ok := ast.Unparen(cl.Args[0]).(*ast.SliceExpr); ok && s2.Low != nil {
+											if id2, ok := ast.Unparen(s2.Low).(*ast.Ident); ok && info.Uses[id2] == lobj {
+												hit = true
+											}
+										}
+									}
+								})
+								return hit
+							}
+							if p := g.Path(flow.Search{From: []*flow.Node{y}, Goal: again, Avoid: advances, Track: true, Init: g.InitFacts(y, false)}); p == nil {
+								capped = true
+								how = "the spans are disjoint: " + lid.Name + " is moved past " + kid.Name + " before the next pass that starts at it"
+							} else {
+								lagPath = " (next pass without moving " + lid.Name + ": " + pathStr(c, g, p) + ")"
+							}
+						}
+					}
+				}
+				c.R.Check(capped, rule, fmt.Sprintf("%s.%s/%s inside the loop over %s#%d", pk.Name, load.FuncName(fd), str(call.Fun), str(sl.X), perFn[fd]), c.pos(call), how, "a linear pass over "+str(call.Args[0])+" runs once per iteration of the loop over "+str(sl.X)+" with no cap on the span"+lagPath+": quadratic time on crafted input")
 			}
 		}
 	}
@@ -1351,7 +1405,7 @@ func (c *Ctx) r108() {
 // R10.9: stripping delimiters needs both of them.
 func (c *Ctx) r109() {
 	const rule = "R10.9"
-	c.R.Rule(rule, "library packages: a slice v[a : len(v)-b] with constants a, b and a+b ≥ 2 (taking off the quotes, `url(`…`)`, `/*!`…`*/`) panics with `slice bounds out of range` when len(v) < a+b. A token that the lexer closed at the end of the input lacks its closing delimiter (CSS: `local('` is a function with the one-byte string `'`), so the kind of the token proves nothing about its length. Each such slice is dominated by length tests on v — or on the expression v was defined from — that establish len(v) ≥ a+b; exempt are the string literals of the JS parser, which reports an unterminated literal as an error instead of returning a token")
+	c.R.Rule(rule, "library packages: a slice v[a : len(v)-b] (or v[a : n-b] with n defined once as len(v)) with constants a, b and a+b ≥ 2 (taking off the quotes, `url(`…`)`, `/*!`…`*/`) panics with `slice bounds out of range` when len(v) < a+b. A token that the lexer closed at the end of the input lacks its closing delimiter (CSS: `local('` is a function with the one-byte string `'`), so the kind of the token proves nothing about its length. Each such slice is dominated by length tests on v — or on the expression v was defined from — that establish len(v) ≥ a+b; exempt are the string literals of the JS parser, which reports an unterminated literal as an error instead of returning a token")
 	exempt := func(fname, v string) string {
 		if strings.HasPrefix(fname, "js.") && (strings.HasSuffix(v, "lit.Data") || strings.HasSuffix(v, "].Data")) {
 			return "JS string literal: the parser fails on an unterminated literal"
@@ -1370,6 +1424,8 @@ func (c *Ctx) r109() {
 				continue
 			}
 			var sites []*ast.SliceExpr
+			alias := map[*ast.SliceExpr]types.Object{}
+			aliasCall := map[*ast.SliceExpr]*ast.CallExpr{}
 			ast.Inspect(fd.Body, func(x ast.Node) bool {
 				e, ok := x.(*ast.SliceExpr)
 				if !ok || e.High == nil {
@@ -1380,7 +1436,20 @@ func (c *Ctx) r109() {
 					return true
 				}
 				call, ok := ast.Unparen(hb.X).(*ast.CallExpr)
-				if !ok || str(call.Fun) != "len" || len(call.Args) != 1 || nospace(str(call.Args[0])) != nospace(str(e.X)) {
+				if !ok {
+					// `n - b` with n defined once as len(v)
+					if id, isId := ast.Unparen(hb.X).(*ast.Ident); isId {
+						if lcall := lenAliasDef(info, fd, id); lcall != nil && nospace(str(lcall.Args[0])) == nospace(str(e.X)) {
+							if _, ok := intConst(info, hb.Y); ok {
+								sites = append(sites, e)
+								alias[e] = info.Uses[id]
+								aliasCall[e] = lcall
+							}
+						}
+					}
+					return true
+				}
+				if str(call.Fun) != "len" || len(call.Args) != 1 || nospace(str(call.Args[0])) != nospace(str(e.X)) {
 					return true
 				}
 				if _, ok := intConst(info, hb.Y); !ok {
@@ -1453,7 +1522,11 @@ func (c *Ctx) r109() {
 						if f.Test.Kind != flow.KCond {
 							continue
 						}
-						if fv, lb, ok := lenLowerBound(info, f.Test.Expr, f.Value); ok && lb > best {
+						cond := f.Test.Expr
+						if obj := alias[e]; obj != nil {
+							cond = substIdent(info, cond, obj, aliasCall[e])
+						}
+						if fv, lb, ok := lenLowerBound(info, cond, f.Value); ok && lb > best {
 							for _, nm := range names {
 								if fv == nm {
 									best = lb
@@ -1478,6 +1551,59 @@ func (c *Ctx) r109() {
 	}
 	c.R.Floor(rule, "delimiter-stripping slices", n, 10)
 	_ = judged
+}
+
+// lenAliasDef: id is a variable with exactly one definition in fd, `id := len(x)`; returns that call.
+func lenAliasDef(info *types.Info, fd *ast.FuncDecl, id *ast.Ident) *ast.CallExpr {
+	obj := info.Uses[id]
+	if obj == nil {
+		return nil
+	}
+	var def *ast.CallExpr
+	n := 0
+	ast.Inspect(fd.Body, func(x ast.Node) bool {
+		switch s := x.(type) {
+		case *ast.AssignStmt:
+			for i, l := range s.Lhs {
+				if li, ok := l.(*ast.Ident); ok && (info.Defs[li] == obj || info.Uses[li] == obj) {
+					n++
+					if len(s.Lhs) == len(s.Rhs) {
+						if call, ok := ast.Unparen(s.Rhs[i]).(*ast.CallExpr); ok && str(call.Fun) == "len" && len(call.Args) == 1 {
+							def = call
+						}
+					}
+				}
+			}
+		case *ast.IncDecStmt:
+			if li, ok := s.X.(*ast.Ident); ok && info.Uses[li] == obj {
+				n++
+			}
+		case *ast.UnaryExpr:
+			if li, ok := s.X.(*ast.Ident); ok && s.Op == token.AND && info.Uses[li] == obj {
+				n++
+			}
+		}
+		return true
+	})
+	if n != 1 {
+		return nil
+	}
+	return def
+}
+
+// substIdent returns e with the uses of obj in comparison operands replaced by repl (only through parentheses and binary operators).
+func substIdent(info *types.Info, e ast.Expr, obj types.Object, repl ast.Expr) ast.Expr {
+	switch x := e.(type) {
+	case *ast.Ident:
+		if info.Uses[x] == obj {
+			return repl
+		}
+	case *ast.ParenExpr:
+		return &ast.ParenExpr{Lparen: x.Lparen, X: substIdent(info, x.X, obj, repl), Rparen: x.Rparen}
+	case *ast.BinaryExpr:
+		return &ast.BinaryExpr{X: substIdent(info, x.X, obj, repl), OpPos: x.OpPos, Op: x.Op, Y: substIdent(info, x.Y, obj, repl)}
+	}
+	return e
 }
 
 // R10.11: a cursor that is advanced by data is compared with the length before it is used as an index.
